@@ -74,8 +74,11 @@ def plan(tier, seed, rng):
     cases = []
     for (t, M, K, N) in instances(tier, rng):
         fs = forms(M, K, N)
+        acc = 6 + (M + K + N) % 2                     # accumulate forms C += A%B / C -= A%B (the _gemm route), alternating
         if M * K * N > 125:      # beyond the box: two of the forms, chosen by the seeded stream
-            fs = sorted(rng.sample(fs, 2))
+            fs = sorted(rng.sample(fs + [acc], 2))
+        else:
+            fs = fs + [acc]
         for f in fs:
             cid = "mm/%s/%dx%dx%d/f%d" % (t, M, K, N, f)
             cases.append(Case(cid, 'VF_CASE("%s", c01::mm<%s,%d,%d,%d,%d>)' % (cid, TYPES[t], M, K, N, f),
